@@ -167,6 +167,10 @@ def classify(unit, text, res):
         kind = re.sub(r"[^a-z]+", "_", msg.lower())[:40].strip("_")
         if label is None:
             label = "auto.%s.%s@%s" % (fn or "spec", kind, srcloc or ("gen:%s" % (prim[0]["line_start"] if prim else "?")))
+            for sub, props in getattr(unit, "auto_props", {}).items():
+                if fn and sub in fn:
+                    label = "%s.%s" % (props, label)   # machine-generated obligations (overflow, bounds, unwrap) of this fn belong to that property
+                    break
         clause = ""
         if prim:
             clause = " ".join(t["text"].strip() for t in prim[0].get("text", []))[:300]
